@@ -5,7 +5,7 @@ import json, os, re, subprocess, sys
 base = json.load(open("/root/.vp/BASELINE.json")) if os.path.exists("/root/.vp/BASELINE.json") else None
 env = dict(os.environ, CARGO_NET_OFFLINE="true")
 env.pop("RUSTFLAGS", None)
-r = subprocess.run(["cargo", "test", "--workspace", "--no-fail-fast", "--offline"], cwd="/repo", env=env,
+r = subprocess.run(["cargo", "test", "--workspace", "--no-fail-fast", "--offline"], cwd=os.environ.get("BASELINE_DIR", "/repo"), env=env,
                    stdout=subprocess.PIPE, stderr=subprocess.STDOUT, text=True)
 passed, failed = set(), set()
 crate = None
